@@ -1404,6 +1404,28 @@ def declared_types_keep_values(ctx, rel, rule="R0.declared-c-types"):
         n += 1
         ctx.ob(rule, rel, sc or "<module>", f"{len(rd)} typed names keep every value of their reference type", not bad,
                (f"`{bad[0][0]}` is declared {bad[0][1]} (was {bad[0][2]}): what is stored into it is truncated, narrowed or changes sign" if bad else ""), 1)
+        # a NEW typed local of at most 16 bits that takes an element of a buffer whose element type is not that type (a fused code type, a
+        # wider integer): the element is truncated on the way in
+        fn_ = s.funcs.get(sc) if sc else None
+        def _plain(t_):
+            t_ = s.low.resolve(t_.replace("const ", "").strip())
+            t_ = t_[3:] if t_.startswith("np.") else t_
+            return t_[:-2] if t_.endswith("_t") else t_
+        narrow = {nm: t for nm, t in nd.items() if nm not in rd and _plain(t) in
+                  ("uint8", "int8", "uint16", "int16", "char", "unsigned char", "signed char", "short", "unsigned short")}
+        ptypes_ = dict((pn_, pt_) for pn_, pt_ in (new["funcs"].get(sc, {}).get("params") or []) if pt_) if sc else {}
+        if fn_ is not None and narrow:
+            for st_ in ast.walk(fn_):
+                if isinstance(st_, ast.Assign) and len(st_.targets) == 1 and isinstance(st_.targets[0], ast.Name) and st_.targets[0].id in narrow:
+                    for sub_ in ast.walk(st_.value):
+                        if isinstance(sub_, ast.Subscript) and isinstance(sub_.value, ast.Name):
+                            src_t = nd.get(sub_.value.id, "") or ptypes_.get(sub_.value.id, "")
+                            base_t = _plain(split(src_t)[0]) if src_t else ""
+                            if src_t and base_t != _plain(narrow[st_.targets[0].id]):
+                                n += 1
+                                ctx.ob(rule, rel, sc, st_, False,
+                                       f"the new local `{st_.targets[0].id}` is declared {narrow[st_.targets[0].id]} and takes an element of `{sub_.value.id}` "
+                                       f"({src_t}): a value that does not fit is truncated (a symbol code 256 becomes 0)", st_.lineno)
     n += 1
     ctx.ob(rule, rel, "<module>", "file-level compiler directives and names of the cython module", new.get("directives", []) == ref.get("directives", []),
            f"the file-level directives changed from {ref.get('directives', [])} to {new.get('directives', [])}: bounds checks, wrap-around, division and "
@@ -1536,6 +1558,11 @@ def equality_covers_state(ctx, rel, rule, classes, exempt=None):
                 covered.add(a.attr.lstrip("_"))
         missing = [f for f in state if f.lstrip("_") not in covered and (cls, f) not in exempt]
         n += 1
+        # an equality that is computed by a loop or through locals is not one of the forms read here: no verdict
+        opaque = [x for x in walk_local(eq) if isinstance(x, (ast.For, ast.While, ast.Assign, ast.AugAssign, ast.NamedExpr, ast.Try, ast.With))]
+        if missing and opaque:
+            ctx.cannot_decide(False, f"{rel}: {cls}.__eq__ decides through a {type(opaque[0]).__name__} statement - which fields it compares cannot be read off")
+            continue
         ctx.ob(rule, rel, f"{cls}.__eq__", f"state {state}; compared {sorted(covered)}", not missing,
                f"{cls}.__eq__ never requires the two objects to agree on {missing}: objects that differ there compare equal", eq.lineno)
     ctx.floor("value-classes-with-equality", n, len(classes))
